@@ -455,6 +455,18 @@ def run_case(case):
         rng.shuffle(arrivals6)
         note(check_receive(arrivals6, {(PEER, 33): b6}, obs), 'segment-with-other-items', dict(extras=[sorted(e) for e in extras[:3]]),
              'multi3|%s' % ([sorted(e.items(), key=repr) for e in extras[:3]],))
+        # a message the receiver cannot use (a segment whose total length disagrees with the transfer it belongs to) does not take
+        # the messages behind it in the same datagram with it
+        b8 = make_bundle(100, seq=70)
+        b9 = make_bundle(60, seq=71)
+        segs8 = segments_of(b8, 55, [50, 50])
+        odd = cw.enc({2: [55, len(b8) + 7, 10, b'conflict']})
+        arrivals8 = [((PEER, 55), segs8[0][0], segs8[0][1], segs8[0][2], PEER),
+                     ([(('whole', 9), 0, len(b9))], 0, 0, odd + b9, PEER),
+                     ((PEER, 55), segs8[1][0], segs8[1][1], segs8[1][2], PEER)]
+        problems8 = check_receive(arrivals8, {(PEER, 55): b8, ('whole', 9): b9}, obs)
+        # (only what becomes of the bundle behind the unusable message is judged here)
+        note([text for text in problems8 if "('whole', 9)" in text or 'raised' in text], 'message-behind-an-unusable-one', dict(), 'multi5')
         # a sender that restarts and uses a transfer id again for another bundle of the same length, after a late repeat of a
         # segment of the first transfer: every queued item is one of the two bundles, the second one only when it has arrived
         for late in (0, 1, 2):
